@@ -211,7 +211,7 @@ fn param_shape(r: &mut Rng) -> String {
 }
 
 fn sgr_colour_form(r: &mut Rng) -> String {
-    let g = *r.pick(&[38u32, 48]);
+    let g = *r.pick(&[38u32, 48, 38, 48, 38, 48, 58, 28, 8, 39, 0, 4]);
     let c = |r: &mut Rng| r.below(256);
     let body = match r.below(12) {
         0 => format!("{};5;{}", g, c(r)),
